@@ -37,6 +37,18 @@ constexpr auto c8 = pl.parse(cstring_buffer("1;2+")); static_assert(!c8.has_valu
 constexpr auto c9 = pl.parse(cstring_buffer("1;#")); static_assert(!c9.has_value());
 constexpr auto c10 = pe.parse(parse_options{}.set_skip_whitespace(false), cstring_buffer("1 +2"), utils::no_stream{}.operator<<(0)); 
 
+// verbose parses with no stream are constant expressions too, for accepted, syntactically wrong (whole stack unwound), lexically wrong,
+// recovering and not recovering inputs, and give the quiet results
+#define NS utils::no_stream{}.operator<<(0)
+constexpr auto v1 = pe.parse(parse_options{}.set_verbose(), cstring_buffer("1+2*3"), NS); static_assert(v1 == c1);
+constexpr auto v2 = pe.parse(parse_options{}.set_verbose(), cstring_buffer("1+*3"), NS); static_assert(v2 == c2);
+constexpr auto v3 = pe.parse(parse_options{}.set_verbose(), cstring_buffer("1+?3"), NS); static_assert(v3 == c3);
+constexpr auto v4 = pe.parse(parse_options{}.set_verbose(), cstring_buffer(""), NS); static_assert(v4 == c4);
+constexpr auto v7 = pl.parse(parse_options{}.set_verbose(), cstring_buffer("1;2+;3;"), NS); static_assert(v7 == c7);
+constexpr auto v8 = pl.parse(parse_options{}.set_verbose(), cstring_buffer("1;2+"), NS); static_assert(v8 == c8);
+constexpr auto v9 = pl.parse(parse_options{}.set_verbose(), cstring_buffer("1;#"), NS); static_assert(v9 == c9);
+constexpr auto v10 = pl.parse(parse_options{}.set_verbose().set_skip_newline(false), cstring_buffer("+"), NS); static_assert(!v10.has_value());
+
 template<class P> static std::optional<int> all_buffers(const P& p, const char* name, const std::string& in, bool& agree) {
   auto a = p.parse(string_buffer(std::string(in))); auto b = p.parse(string_view_buffer(std::string_view(in)));
   agree = (a == b);
@@ -45,7 +57,8 @@ template<class P> static std::optional<int> all_buffers(const P& p, const char* 
 }
 int main() {
   struct { const char* in; std::optional<int> ce; } cases[] = { {"1+2*3", c1}, {"1+*3", c2}, {"1+?3", c3}, {"", c4}, {"(1+2)*(3+4)", c5}, {" 12 \n+\t30 ", c6} };
-  auto rt = parser(GRAMMAR);   // the same parser constructed at run time
+  volatile int zero = 0; if (zero) return 2;
+  auto rt = [&] { return parser(GRAMMAR); }();   // the same parser constructed at run time (not a constant-initialised object)
   for (auto& c : cases) {
     bool ag; auto r = all_buffers(pe, "constexpr-constructed parser", c.in, ag);
     CHECK(r == c.ce, "constant evaluation and run time disagree on '" << c.in << "'");
